@@ -31,6 +31,7 @@ type Config struct {
 	Verbose      bool     // keep a human readable trace
 	Race         bool     // happens-before race detection on instrumented accesses
 	CrandSeed    uint32   // first value returned by crypto/rand.Read as a big-endian uint32
+	RandFree     bool     // math/rand draws are free choices (all alternatives explored at no cost)
 }
 
 // Point describes one recorded decision point.
@@ -626,6 +627,14 @@ func PendingTimers() int {
 	return S.timers.Len()
 }
 
+// NextTimer returns the virtual time at which the earliest pending timer is due.
+func NextTimer() (rt.Duration, bool) {
+	if S == nil || S.timers.Len() == 0 {
+		return 0, false
+	}
+	return S.timers.items[0].when, true
+}
+
 // PendingTimerNames names the creation sites of pending timers.
 func PendingTimerNames() []string {
 	var out []string
@@ -680,7 +689,7 @@ func (st *site) String() string {
 // Func returns only the function name (stable across edits; used in signatures).
 func (st *site) Func() string {
 	s := st.String()
-	if i := strings.Index(s, "("); i > 0 {
+	if i := strings.LastIndex(s, "("); i > 0 {
 		return s[:i]
 	}
 	return s
